@@ -55,3 +55,26 @@ class BlockHeaderBounded:
         from btclib.block.block_header import BlockHeader
         back = BlockHeader.parse(result, check_validity=False)
         return len(result) == 80 and back == self and back.serialize(check_validity=False) == result and BlockHeader.from_dict(self.to_dict(check_validity=False), check_validity=False) == self
+
+
+def _gen_psbt_json(rng):
+    from contracts.c_hostile import corpus
+    from btclib.psbt.psbt import Psbt
+    return dict(self=Psbt.parse(rng.choice(corpus()["Psbt.parse"])))
+
+
+@contract("btclib.psbt.psbt.Psbt.to_dict", gen=_gen_psbt_json, props="C05", n_quick=88, n_thorough=880,
+          rule="the 44 valid PSBTs of the BIP174/370/371/373 vectors vendored in the repository (taproot key paths, MuSig2 fields, v0 and v2)")
+class PsbtJsonBounded:
+    """the JSON form, through json.dumps / json.loads, reads back as the same PSBT, input by
+    input and output by output"""
+
+    def post_roundtrip(self, result):
+        import json
+        from btclib.psbt.psbt import Psbt
+        from btclib.psbt.psbt_in import PsbtIn
+        from btclib.psbt.psbt_out import PsbtOut
+        back = Psbt.from_dict(json.loads(json.dumps(result)))
+        return (back == self and back.serialize() == self.serialize()
+                and all(PsbtIn.from_dict(json.loads(json.dumps(i.to_dict()))) == i for i in self.inputs)
+                and all(PsbtOut.from_dict(json.loads(json.dumps(o.to_dict()))) == o for o in self.outputs))
